@@ -3,7 +3,9 @@ package main
 import (
 	"fmt"
 	"os"
+	"strconv"
 	"time"
+	"verif/ev"
 
 	"verif/pool"
 )
@@ -15,6 +17,7 @@ func main() {
 	pool.Register("c04", c04Worker)
 	pool.Register("c03pipe", pipeWorker)
 	pool.Register("c12tree", treeWorker)
+	pool.Register("c12shape", shapeWorker)
 	pool.WorkerMain()
 	if len(os.Args) < 2 {
 		fmt.Fprintln(os.Stderr, "usage: seqmc <property> | seqmc replay <file>")
@@ -25,6 +28,14 @@ func main() {
 	}
 	if os.Args[1] == "bench" {
 		bench()
+		return
+	}
+	if os.Args[1] == "shape" {
+		// timing aid: seqmc shape <max nodes>
+		n, _ := strconv.Atoi(os.Args[2])
+		rep := ev.NewReport("C12", "model_checking")
+		t0 := time.Now()
+		fmt.Println(runShapeSearch(rep, n), time.Since(t0))
 		return
 	}
 	if os.Args[1] == "C03" {
